@@ -1,5 +1,6 @@
 import SieveModel.Lemmas.ClientRead
 import SieveModel.Props.C09
+import SieveModel.Lemmas.Listing
 /-! # C15 — session-level consequences of T-READ (theorems follow) -/
 namespace C15
 open Client Reader
@@ -30,5 +31,70 @@ theorem later_reply_alone_decides_error_fields (nbl : Option Nat) (st : RState) 
   obtain ⟨st1, h1, hp1, hc1, hm1⟩ := C09.no_code_text_reply_is_read nbl st code text _ hne hc htext hp
   obtain ⟨st2, h2, hp2, hc2, hm2⟩ := C09.bare_no_reply_is_read nbl st1 rest hp1
   exact ⟨st1, st2, _, _, h1, hc1, hm1, h2, hc2, hm2, hp2⟩
+
+/-! ## the client's view of the server's store -/
+
+/-- what a server holds: named scripts in listing order, at most one of them active -/
+structure Store where
+  scripts : List (Bytes × Bytes)
+  active : Option Bytes
+
+def Store.names (s : Store) : List Bytes := s.scripts.map (·.1)
+/-- the LISTSCRIPTS lines of a store -/
+def Store.entries (s : Store) : List Listing.Entry := s.scripts.map fun p => ⟨p.1, s.active == some p.1⟩
+
+open Listing in
+/-- **what the client reports equals the server's state**: for a store whose active script (if any) is one
+    of its scripts, with names a server may send as quoted strings, `listscripts` reports exactly that
+    active script and exactly the other names in the server's order — and the exchange leaves exactly the
+    bytes that follow the reply pending, so the next call reads its own reply -/
+theorem listing_view_equals_server_state (c : Client) (s : Store) (rest : Bytes)
+    (ha : c.authenticated = true) (hc : c.connected = true)
+    (hact : ∀ a, s.active = some a → a ∈ s.names)
+    (hb : ∀ n ∈ s.names, NoBreak n) (hv : ∀ n ∈ s.names, Utf8.valid n = true)
+    (hp : pending (afterWrites c (sb "LISTSCRIPTS") [] []).r = wire s.entries ++ (sb "OK" ++ 13 :: 10 :: rest)) :
+    (listscripts c).1 = .ok (some (s.active, s.names.filter (fun n => !(s.active == some n)))) ∧
+      pending (listscripts c).2.r = rest := by
+  have hb' : ∀ e ∈ s.entries, NoBreak e.name := by
+    intro e he
+    obtain ⟨p, hp1, rfl⟩ := List.mem_map.1 he
+    exact hb p.1 (List.mem_map.2 ⟨p, hp1, rfl⟩)
+  have hv' : ∀ e ∈ s.entries, Utf8.valid e.name = true := by
+    intro e he
+    obtain ⟨p, hp1, rfl⟩ := List.mem_map.1 he
+    exact hv p.1 (List.mem_map.2 ⟨p, hp1, rfl⟩)
+  obtain ⟨h1, h2⟩ := listscripts_returns_the_listing c s.entries rest ha hc hb' hv' hp
+  refine ⟨?_, h2⟩
+  rw [h1]
+  have hin : inactive s.entries = s.names.filter (fun n => !(s.active == some n)) := by
+    simp only [inactive, Store.entries, Store.names, List.filter_map, List.map_map]
+    rfl
+  have hao : activeOf s.entries none = s.active := by
+    cases hsa : s.active with
+    | none =>
+      rw [activeOf_flagged s.entries [] none]
+      · have : s.entries.any (·.active) = false := by
+          simp [Store.entries, hsa]
+        simp [this]
+      · intro e he hf
+        obtain ⟨p, _, rfl⟩ := List.mem_map.1 he
+        simp [hsa] at hf
+    | some a =>
+      rw [activeOf_flagged s.entries a none]
+      · have : s.entries.any (·.active) = true := by
+          have hmem := hact a hsa
+          obtain ⟨p, hp1, hp2⟩ := List.mem_map.1 hmem
+          simp only [Store.entries, List.any_map, List.any_eq_true]
+          exact ⟨p, hp1, by simp [hsa, hp2]⟩
+        simp [this]
+      · intro e he hf
+        obtain ⟨p, _, rfl⟩ := List.mem_map.1 he
+        simp only [hsa] at hf
+        simpa using (beq_iff_eq.1 hf).symm
+  rw [hin, hao]
+
+/-- non-vacuity: a store with three scripts, the second one active -/
+example : (⟨[(sb "a", sb "keep;"), (sb "OK", sb "stop;"), (sb "{5}", [])], some (sb "OK")⟩ : Store).entries.map (·.active) = [false, true, false] := by
+  decide
 
 end C15
